@@ -43,6 +43,8 @@ fn stranger() -> Key {
 fn holder_doc() -> CoreDocument {
   let j = json!({
     "id": HOLDER,
+    "alsoKnownAs": ["did:example:holder-alias", "https://holder.example.com/me"],
+    "controller": "did:example:holder-controller",
     "verificationMethod": [method_json(&format!("{}#k1", HOLDER), HOLDER, &k1()), method_json(&format!("{}#kf", FOREIGN), FOREIGN, &kf())],
     "authentication": [format!("{}#k1", HOLDER)],
     "capabilityInvocation": [format!("{}#k1", HOLDER)],
@@ -206,7 +208,7 @@ impl Plan {
         f.push("issuance");
       }
     }
-    if self.dup_id >= 2 {
+    if self.dup_id == 2 {
       f.push("vp.id-consistent");
     }
     if self.dup_holder == 2 {
@@ -237,6 +239,8 @@ fn build(rng: &mut Rng, p: &Plan, other: u8) -> Built {
     3 => "https://holder.example.com/me".to_string(),
     4 => format!("{}/path", HOLDER),
     5 => "did:example:HOLDER".to_string(), // differs from the document id in letter case only: another DID
+    6 => "did:example:holder-alias".to_string(), // listed under alsoKnownAs: still not the document's id
+    7 => "did:example:holder-controller".to_string(), // the document's controller: not its id either
     _ => HOLDER.to_string(),
   };
   let jti = "https://example.edu/presentations/3732";
@@ -276,7 +280,9 @@ fn build(rng: &mut Rng, p: &Plan, other: u8) -> Built {
       vp.insert("id".into(), json!("https://example.edu/presentations/other"));
     }
     3 => {
+      // id only inside vp, no jti: refusing is fine; if accepted, the id that was signed must come back
       vp.insert("id".into(), json!(jti));
+      full.insert("id".into(), json!(jti));
     }
     _ => {}
   }
@@ -389,23 +395,32 @@ fn build(rng: &mut Rng, p: &Plan, other: u8) -> Built {
   } else {
     jwt(&header, &claims, &signer)
   };
+  // the three setters are applied in a random order (the result must not depend on it)
   let mut vo = JwsVerificationOptions::new();
-  match p.nonce_opt {
-    1 => vo = vo.nonce("a"),
-    2 => vo = vo.nonce("b"),
-    _ => {}
-  }
-  if let Some(s) = p.scope_value() {
-    vo = vo.method_scope(s);
-  }
-  match p.method_id_override {
-    1 => vo = vo.method_id(DIDUrl::parse(Plan::method_id(p.method)).unwrap()),
-    2 => vo = vo.method_id(DIDUrl::parse(Plan::method_id(other)).unwrap()),
-    3 => vo = vo.method_id(DIDUrl::parse(format!("{}#nope", HOLDER)).unwrap()),
-    4 => vo = vo.method_id(DIDUrl::parse(format!("{}#kf", HOLDER)).unwrap()),
-    5 => vo = vo.method_id(DIDUrl::parse(Plan::near_method_id(p.method, false)).unwrap()),
-    6 => vo = vo.method_id(DIDUrl::parse(Plan::near_method_id(p.method, true)).unwrap()),
-    _ => {}
+  let mut order = [0u8, 1, 2];
+  rng.shuffle(&mut order);
+  for step in order {
+    match step {
+      0 => match p.nonce_opt {
+        1 => vo = vo.nonce("a"),
+        2 => vo = vo.nonce("b"),
+        _ => {}
+      },
+      1 => {
+        if let Some(sc) = p.scope_value() {
+          vo = vo.method_scope(sc);
+        }
+      }
+      _ => match p.method_id_override {
+        1 => vo = vo.method_id(DIDUrl::parse(Plan::method_id(p.method)).unwrap()),
+        2 => vo = vo.method_id(DIDUrl::parse(Plan::method_id(other)).unwrap()),
+        3 => vo = vo.method_id(DIDUrl::parse(format!("{}#nope", HOLDER)).unwrap()),
+        4 => vo = vo.method_id(DIDUrl::parse(format!("{}#kf", HOLDER)).unwrap()),
+        5 => vo = vo.method_id(DIDUrl::parse(Plan::near_method_id(p.method, false)).unwrap()),
+        6 => vo = vo.method_id(DIDUrl::parse(Plan::near_method_id(p.method, true)).unwrap()),
+        _ => {}
+      },
+    }
   }
   let mut options = JwtPresentationValidationOptions::new()
     .presentation_verifier_options(vo)
@@ -452,7 +467,7 @@ fn mutate_one(rng: &mut Rng, p: &mut Plan, which: u64) {
       p.nonce_hdr = rng.below(3) as u8;
       p.nonce_opt = (p.nonce_hdr + 1 + rng.below(2) as u8) % 3;
     }
-    5 => p.iss = 1 + rng.below(5) as u8,
+    5 => p.iss = 1 + rng.below(7) as u8,
     6 => p.exp = Some(*rng.pick(&[-1i64, -2, -1_000_000])),
     7 => {
       if p.issuance == 0 {
@@ -461,7 +476,7 @@ fn mutate_one(rng: &mut Rng, p: &mut Plan, which: u64) {
       p.issuance_delta = *rng.pick(&[1i64, 2, 1_000_000]);
       p.other_delta = -5; // for `both`: iat alone would satisfy the bound, nbf must still decide
     }
-    8 => p.dup_id = 2,
+    8 => p.dup_id = 2 + rng.below(2) as u8,
     9 => p.dup_holder = 2,
     10 => {
       p.date_extreme = 1 + rng.below(3) as u8;
@@ -512,6 +527,7 @@ impl Cx {
     let b = build(rng, p, other);
     let falsified = p.falsified(other);
     let expect_accept = falsified.is_empty();
+    let either = falsified.is_empty() && p.dup_id == 3;
     let case = json!({"plan": format!("{:?}", p), "other_method": Plan::method_id(other), "token": b.token, "falsified": falsified,
       "options": serde_json::to_value(&b.options).unwrap_or(Value::Null)});
     self.rep.distinct("nontrivial", &format!("{}|m{}|kid{}|ovr{}|sc{}|iss{}|is{}|d{}{}|x{}", falsified.join("+"), p.method, p.kid, p.method_id_override, p.scope, p.iss, p.issuance, p.dup_id, p.dup_holder, p.date_extreme));
@@ -558,7 +574,9 @@ impl Cx {
       }
       Ok(Err(e)) => {
         self.rep.inc("rejected");
-        if expect_accept {
+        if either {
+          self.rep.inc("rejected:vp.id-without-jti");
+        } else if expect_accept {
           let variants: Vec<&'static str> = e.presentation_validation_errors.iter().map(|e| <&'static str>::from(e)).collect();
           let mut c = case;
           c["errors"] = json!(variants);
